@@ -174,6 +174,13 @@ func runComposerCase(c sink, name string, r *rand.Rand, st stats) {
 		})))
 	}
 	composer := xcomposite.NewPTComposer(cl, cl, opts...)
+	unserved := map[string]bool{}
+	cl.FaultFn = func(_ int, _ string, k sim.Key) sim.Outcome {
+		if unserved[k.Kind] {
+			return sim.NotServed
+		}
+		return sim.OK
+	}
 
 	existing := map[string]string{} // kind -> name of the created resource
 	rounds := 2 + r.IntN(2)
@@ -217,6 +224,21 @@ func runComposerCase(c sink, name string, r *rand.Rand, st stats) {
 			if useFakeNamer && mode[j] == "" && existing[t.kind] == "" && chance(r, 0.2) {
 				nameFail[t.kind] = true
 				mode[j] = "name-generation"
+			}
+			namedRef := false
+			curRefs, _, _ := unstructured.NestedSlice(cur.Object, "spec", "resourceRefs")
+			for _, rf := range curRefs {
+				if m, ok := rf.(map[string]any); ok && m["kind"] == t.kind && m["name"] != nil && m["name"] != "" {
+					namedRef = true // a reference with a name exists already (the name was generated in an earlier round): the composer has to read it
+				}
+			}
+			if !useFakeNamer && mode[j] == "" && existing[t.kind] == "" && !namedRef && chance(r, 0.15) {
+				// the composed kind is not served (its CRD / provider is not installed yet): the real name
+				// generator cannot probe for a free name
+				unserved[t.kind] = true
+				mode[j] = "kind-unserved"
+			} else {
+				delete(unserved, t.kind)
 			}
 			if labelMissing {
 				mode[j] = "metadata-label"
